@@ -9,21 +9,50 @@ import copy
 import functools
 
 
-class Seq(list):
+class Seq:
+    """A lazy, re-iterable sequence (LINQ deferred execution): an element that is never
+    demanded is never computed, so pushing an operation through First() - which the library
+    does on purpose - is not misjudged because of an error in an element nobody asked for."""
+
+    __slots__ = ("_f",)
+
+    def __init__(self, src=()):
+        if callable(src):
+            self._f = src
+        else:
+            items = list(src)
+            self._f = lambda: iter(items)
+
+    def __iter__(self):
+        return self._f()
+
     def Select(self, f):
-        return Seq(f(x) for x in self)
+        return Seq(lambda: (f(x) for x in self))
 
     def Where(self, f):
-        return Seq(x for x in self if f(x))
+        return Seq(lambda: (x for x in self if f(x)))
 
     def SelectMany(self, f):
-        return Seq(y for x in self for y in f(x))
+        return Seq(lambda: (y for x in self for y in f(x)))
 
     def First(self):
-        return self[0]
+        for x in self:
+            return x
+        raise IndexError("First() of an empty sequence")
 
     def Count(self):
-        return len(self)
+        return sum(1 for _ in self)
+
+    def __len__(self):
+        return self.Count()
+
+    def __getitem__(self, i):
+        if isinstance(i, int) and i >= 0:
+            for k, x in enumerate(self):
+                if k == i:
+                    return x
+            raise IndexError(i)
+        return list(self)[i]
 
 
 class AttrDict(dict):
@@ -74,7 +103,7 @@ def _seq(s):
 
 
 def _first(s):
-    return _seq(s)[0]
+    return _seq(s).First()
 
 
 BASE_ENV = {
@@ -82,7 +111,7 @@ BASE_ENV = {
     "Where": lambda s, f: _seq(s).Where(f),
     "SelectMany": lambda s, f: _seq(s).SelectMany(f),
     "First": _first,
-    "Count": lambda s: len(s),
+    "Count": lambda s: _seq(s).Count(),
     "len": len,
     "abs": abs,
     "Aggregate": lambda s, init, f: functools.reduce(f, s, init),
@@ -153,7 +182,7 @@ def norm(v):
         return {"__d": {k: norm(x) for k, x in v.items()}}
     if isinstance(v, tuple):
         return tuple(norm(x) for x in v)
-    if isinstance(v, list):
+    if isinstance(v, (list, Seq)):
         return [norm(x) for x in v]
     if isinstance(v, bool):
         return ("bool", v)
